@@ -1059,15 +1059,20 @@ func ruleR17_2(c *Check) {
 			lenOK = true
 		}
 		if lo == 4 && hi == 8 {
-			if be, ok := w.parentOf(call).(*ast.BinaryExpr); ok && be.Op == token.NEQ {
-				other := be.X
-				if other == ast.Expr(call) {
-					other = be.Y
-				}
-				if c2, ok := unparen(other).(*ast.CallExpr); ok && w.Callee(c2) == crc && w.mentions(c2.Args[1], table) {
-					crcOK = true
-				}
+			// compared (directly or through a local) with crc32.Checksum(body, Castagnoli)
+			isStored := func(e ast.Expr) bool { return unparen(e) == ast.Expr(call) }
+			isSum := func(e ast.Expr) bool {
+				c2, ok := unparen(e).(*ast.CallExpr)
+				return ok && w.Callee(c2) == crc && len(c2.Args) == 2 && w.mentions(c2.Args[1], table)
 			}
+			rd.walk(func(n ast.Node) bool {
+				if be, ok := n.(*ast.BinaryExpr); ok && be.Op == token.NEQ {
+					if _, ok := w.cmpRoles(be, true, isStored, isSum); ok {
+						crcOK = true
+					}
+				}
+				return true
+			})
 		}
 	}
 	r.Check(lenOK, rd, "reader takes the length from bytes 0–3", nil, "no BytesToU32(hdr[0:4])")
